@@ -743,7 +743,7 @@ def run(ctx):
             for off in range(0, len(part), 5000):
                 compare(ctx, "corr.exhaustive_sampled", part[off:off + 5000], real, reported)
             # random histories
-            n = 1500 if ctx.quick else 25000
+            n = 1500 if ctx.quick else 20000
             cases = []
             for i in range(n):
                 ndirs = ctx.rng.choice([1, 2, 2, 3])
